@@ -105,3 +105,8 @@ def run(ctx):
     # the name test is "any lowercase ASCII letter"
     cl = [F.bodies.get(d) for c in fs.calls_to('std::iter::Iterator::any') for d in fs.slice_of([c.args[1]], through_calls=False).closures]
     ctx.ob('R30.4', fs.n, 'the name dispatch tests for a lowercase ASCII letter', any(cb is not None and cb.calls_to('re:char::methods::<impl char>::is_ascii_lowercase$') for cb in cl), '', where(fs, fs.line))
+
+
+# sensitivity pack (thorough tier): each seeded edit must be reported by the named rule instance
+MUTANTS = [{'name': 'degree-separator-changed-in-printer', 'file': 'crates/ordinals/src/degree.rs', 'old': '"{}°{}′{}″{}‴"', 'new': '"{}°{}′{}″{}"', 'expect': ('R30.1', 'Degree', '')},
+           {'name': 'percent-tested-after-dot', 'file': 'crates/ordinals/src/sat.rs', 'old': "    } else if s.contains('%') {\n      Self::from_percentile(s)\n    } else if s.contains('.') {\n      Self::from_decimal(s)", 'new': "    } else if s.contains('.') {\n      Self::from_decimal(s)\n    } else if s.contains('%') {\n      Self::from_percentile(s)", 'expect': ('R30.4', 'from_str', 'from_percentile is chosen')}]
